@@ -3,6 +3,7 @@ import LogosModel.Look.LiveCert
 import LogosModel.Look.FastOracle
 import LogosModel.Look.SoundC
 import LogosModel.Look.TieC
+import LogosModel.Look.EquivC
 import Std.Data.HashMap
 import Std.Data.HashSet
 /-!
@@ -159,6 +160,37 @@ def tieVerdictC (prios : List Nat) (D : VecL) (fuel : Nat) : String :=
       s!"TIE {hexOfL w} {",".intercalate tops} {clsName p0},{clsName n}"
     else "BADWITNESS"
   | (none, some S) => if tieFreeCBFast S.toList prios D then s!"FREE {S.size}" else "CHECKFAIL"
+  | (none, none) => "UNKNOWN"
+
+/-- BFS for a distinguishing (context, string, context) of two patterns -/
+partial def eqSearchC (queue : Array ((ReL × ReL × Cls) × Cls × List Nat)) (i : Nat)
+    (seen : Std.HashSet (ReL × ReL × Cls)) (fuel : Nat) :
+    Option (Cls × List Nat × Cls) × Option (Std.HashSet (ReL × ReL × Cls)) :=
+  if fuel = 0 then (none, none) else
+  if h : i < queue.size then
+    let ((a, b, p), p0, w) := queue[i]
+    match allCls.find? (fun n => nullableC p n a != nullableC p n b) with
+    | some n => (some (p0, w.reverse, n), none)
+    | none =>
+      let (queue, seen) := (List.range 256).foldl
+        (fun (acc : Array ((ReL × ReL × Cls) × Cls × List Nat) × Std.HashSet (ReL × ReL × Cls)) c =>
+          let k := (derivCN p c a, derivCN p c b, clsB c)
+          if !acc.2.contains k then (acc.1.push (k, p0, c :: w), acc.2.insert k) else acc) (queue, seen)
+      eqSearchC queue (i+1) seen (fuel - 1)
+  else (none, some seen)
+
+/-- "EQ n" (`equivCBFast_sound`), "NE hex r s prev,next" (confirmed with `matchesCBool_iff`), or "UNKNOWN" -/
+def equivVerdictC (r s : ReL) (fuel : Nat) : String :=
+  let a := normL r
+  let b := normL s
+  let start := allCls.toArray.map fun p0 => ((a, b, p0), p0, ([] : List Nat))
+  let seen : Std.HashSet (ReL × ReL × Cls) := allCls.foldl (fun h p0 => h.insert (a, b, p0)) {}
+  match eqSearchC start 0 seen fuel with
+  | (some (p0, w, n), _) =>
+    let mr := matchesCBool r p0 w n
+    let ms := matchesCBool s p0 w n
+    if mr != ms then s!"NE {hexOfL w} {mr} {ms} {clsName p0},{clsName n}" else "BADWITNESS"
+  | (none, some S) => if equivCBFast S.toList r s then s!"EQ {S.size}" else "CHECKFAIL"
   | (none, none) => "UNKNOWN"
 
 /-- does leaf `r` match `w` between classes `p` and `n` (by derivatives) -/
